@@ -143,9 +143,7 @@ func TestProxyMapOverReloads(t *testing.T) {
 		}), 2, 4).Draw(t, "reloads")
 		clk := vclock.New(time.Unix(1_700_000_000, 0))
 		engine.SetClock(clk)
-		proxy.mu.Lock()
-		proxy.managed, proxy.manageAll = map[string]bool{}, false
-		proxy.mu.Unlock()
+		// the proxy keeps its maps from case to case, exactly as the gateway keeps its idea of what is registered
 		drain := func() {
 			for i := 0; i < 50 && !unmanageIdle(); i++ {
 				clk.Advance(31 * time.Second)
@@ -241,9 +239,14 @@ var (
 	polAcc  *config.TxnPoliciesAccessor
 )
 
-func polRender(eps []spec, dir string) []byte {
+func polRender(eps []spec, dir string, global bool) []byte {
 	var b strings.Builder
-	b.WriteString("global:\n  remedies: []\n  diagnosis: []\nendpoints:\n")
+	if global {
+		// an enabled global remedy: the gateway asks the proxy to manage everything
+		b.WriteString("global:\n  remedies:\n    - name: \"g\"\n      enabled: true\n      config:\n        fixed_response:\n          status_code: 418\n  diagnosis: []\nendpoints:\n")
+	} else {
+		b.WriteString("global:\n  remedies: []\n  diagnosis: []\nendpoints:\n")
+	}
 	for i, e := range eps {
 		fmt.Fprintf(&b, "  - url: %q\n    method: %s\n    remedies:\n      - name: \"r%d\"\n        enabled: true\n        config:\n          fixed_response:\n            status_code: 418\n", e.URL, e.Methods[0], i)
 	}
@@ -272,7 +275,7 @@ func TestProxyMapOverPolicyReloads(t *testing.T) {
 			return
 		}
 		engine.SetClock(vclock.New(time.Unix(1_700_000_000, 0)))
-		if err := os.WriteFile(filepath.Join(dir, "policies.yaml"), polRender(nil, dir), 0o644); err != nil {
+		if err := os.WriteFile(filepath.Join(dir, "policies.yaml"), polRender(nil, dir, false), 0o644); err != nil {
 			polErr = err
 			return
 		}
@@ -310,9 +313,7 @@ func TestProxyMapOverPolicyReloads(t *testing.T) {
 		}), 2, 4).Draw(t, "reloads")
 		clk := vclock.New(time.Unix(1_700_000_000, 0))
 		engine.SetClock(clk)
-		proxy.mu.Lock()
-		proxy.managed, proxy.manageAll = map[string]bool{}, false
-		proxy.mu.Unlock()
+		// the proxy keeps its maps from case to case, exactly as the gateway keeps its idea of what is registered
 		drain := func() {
 			for i := 0; i < 50 && !unmanageIdle(); i++ {
 				clk.Advance(31 * time.Second)
@@ -327,7 +328,11 @@ func TestProxyMapOverPolicyReloads(t *testing.T) {
 			if len(eps) == 0 {
 				continue
 			}
-			res, err := configuration.UnmarshalPolicyRawData[sharedConfig.PoliciesConfig](polRender(eps, dir))
+			global := rapid.IntRange(0, 3).Draw(t, "global-remedy") == 0
+			if global {
+				r.Class("reload with an enabled global remedy")
+			}
+			res, err := configuration.UnmarshalPolicyRawData[sharedConfig.PoliciesConfig](polRender(eps, dir, global))
 			if err != nil {
 				r.Class("policies rejected by the parser")
 				continue
